@@ -13,7 +13,9 @@ import (
 	"io"
 	"os"
 	"reflect"
+	"runtime/debug"
 	"strings"
+	"sync"
 	"syscall"
 
 	"github.com/ChrisTrenkamp/xsel"
@@ -417,6 +419,25 @@ type tBadExpr struct {
 type tErrExpr struct {
 	A string `xsel:"unknown-function()"`
 }
+// recursive target types: the tag query of the recursive field decides whether
+// filling terminates
+type tSelfDot struct {
+	Name string    `xsel:"name()"`
+	Next *tSelfDot `xsel:"."`
+}
+type tSelfParent struct {
+	Up *tSelfParent `xsel:".."`
+}
+type tSelfSlice struct {
+	Kids []tSelfSlice `xsel:"descendant-or-self::node()"`
+}
+type tMutualA struct {
+	B *tMutualB `xsel:"."`
+}
+type tMutualB struct {
+	A tMutualA `xsel:"self::node()"`
+}
+
 type tComplex struct {
 	C complex128 `xsel:"."`
 	U uintptr    `xsel:"."`
@@ -497,6 +518,10 @@ func targets() []struct {
 			}
 			return &T{}
 		}},
+		{"*self-referential struct (.)", func() any { return &tSelfDot{} }},
+		{"*self-referential struct (..)", func() any { return &tSelfParent{} }},
+		{"*self-referential slice", func() any { return &tSelfSlice{} }},
+		{"*mutually recursive structs", func() any { return &tMutualA{} }},
 		{"reflect.Value", func() any { return reflect.ValueOf(&tTagged{}) }},
 		{"unsafe-ish uintptr", func() any { return uintptr(0) }},
 	}
@@ -533,6 +558,13 @@ func unmarshals(t *simkit.Tape, o *simkit.Outcome, g guard) {
 			o.Fault("unmarshal-nil-result")
 		}
 		ti := t.Draw(len(ts))
+		for strings.Contains(ts[ti].name, "recursive") || strings.Contains(ts[ti].name, "self-referential") {
+			// these cost ~500 nested tag queries each once the depth bound works: keep them rare
+			if t.Bool(1, 12) {
+				break
+			}
+			ti = t.Draw(len(ts))
+		}
 		tg := ts[ti]
 		o.Fault("unfillable-target")
 		desc := fmt.Sprintf("Unmarshal(%T len=%d, %s)", res, resLen(res), tg.name)
@@ -576,8 +608,13 @@ func resLen(r xsel.Result) int {
 	return -1
 }
 
+var stackOnce sync.Once
+
 // Run is the C15 engine.
 func Run(t *simkit.Tape, o *simkit.Outcome, full bool) {
+	// unbounded recursion must end the process quickly (attributed to the run)
+	// instead of growing a 1 GB stack
+	stackOnce.Do(func() { debug.SetMaxStack(16 << 20) })
 	g := guard{o}
 	part := t.Pick(3, 4, 2)
 	switch part {
